@@ -5,6 +5,11 @@ ROOT = os.path.dirname(os.path.dirname(os.path.abspath(__file__)))
 ALL = ["C%02d" % i for i in range(1, 21)]
 
 CHECKS = {
+ "C12": dict(
+   technique="TLA+ Visibility spec (AllowedSym / AllowedField) with the enumerated product symbol kind x case x access site x syntactic context x import shape; every case rendered as a multi-file project and compiled by the real front end",
+   category="model_checking",
+   text="Exhaustive over the stated product (592 well-formed cases: functions, constants, variables, types in 12 value / 6 type contexts from own and foreign modules through direct, aliased and nested-directory imports; fields through receiver, peer parameter, free function, foreign module and receiver-shadowing bindings, 5 operations x 6 contexts): forbidden => not accepted, allowed => accepted.",
+   note="An allowed access rejected without a visibility diagnostic (unsupported cross-module constructs such as module-level constants in MIR) is void and counted (47)."),
  "C10": dict(
    technique="TLA+ Literals spec over the BigNum library: LitValue / InRange judgment and an enumerator of boundary literals whose rendering is verified by TLC (LitValue(Text(v)) = v); each literal compiled alone by the real front end (ACCEPT <=> InRange) and accepted ones compiled natively in batches and run (printed value = LitValue)",
    category="exploration",
